@@ -90,8 +90,18 @@ pub mod controls {
     pub fn swallow_send(s: &Sender<u8>) {
         let _ = s.send(1);
     }
-    pub fn neutralise_send(s: &Sender<u8>) -> bool {
-        s.send(2).is_ok()
+    pub fn neutralise_send(s: &Sender<u8>) {
+        // the failure is turned into a bool that nobody looks at
+        let _ = s.send(2).is_ok();
+    }
+    /// not a swallow: the bool decides the caller's own Result (must NOT be reported)
+    pub fn forward_send_status(s: &Sender<u8>) -> Result<(), ()> {
+        let delivered = s.send(3).is_ok();
+        if delivered {
+            Ok(())
+        } else {
+            Err(())
+        }
     }
 
     /// C20.R3 positive controls: join results ignored.
